@@ -43,6 +43,9 @@ type Report struct {
 	MapRanges        []string       `json:"map_ranges_rewritten"`
 	Globals          []string       `json:"package_level_vars"`
 	Goroutines       []string       `json:"go_statements"`
+	// SyncImports lists files of the package importing sync or sync/atomic (C19's frozen-state
+	// invariant is only meaningful for code without synchronisation primitives)
+	SyncImports []string `json:"sync_imports"`
 }
 
 // Options selects what is overlaid.
@@ -111,6 +114,11 @@ func Bind(o Options) (string, *Report, error) {
 
 	overlay := map[string]string{}
 	for i, f := range files {
+		for _, im := range f.Imports {
+			if p, _ := strconv.Unquote(im.Path.Value); p == "sync" || p == "sync/atomic" {
+				rep.SyncImports = append(rep.SyncImports, names[i]+":"+p)
+			}
+		}
 		usesRT := false
 		if !o.NoRedirect {
 			// count redirected selector uses
